@@ -421,8 +421,10 @@ class IndividualParameters:
 
         final_names = {}
         for name in df_names:
-            split = name.split("_")[0]
-            if split == name:  # e.g tau, xi, ...
+            # `to_dataframe` appends "_<i>" after the name of vector-valued parameters:
+            # only an integer suffix after the last "_" denotes a component (the name itself may contain "_")
+            split, _, suffix = name.rpartition("_")
+            if split == "" or not suffix.isdigit():  # e.g tau, xi, random_intercept, ...
                 final_names[name] = name
             else:  # e.g sources_0 --> sources
                 if split not in final_names:
